@@ -3,7 +3,7 @@ NOTES = ("Contract-based deductive verification of functions extracted mechanica
          "(tools/extract, syn spans). exit 0 holds / exit 1 VIOLATION / exit 2 undecided (lost anchor, tool limit). See DESIGN.md.")
 
 # properties whose thorough tier has been run to completion (exit 0) on the unchanged tree
-THOROUGH_VALIDATED = {"C01", "C03", "C06", "C12", "C13", "C14", "C21", "C22", "C29"}   # C07, C17, C23: the thorough tier ran out of memory / time on this machine and is not registered
+THOROUGH_VALIDATED = {"C01", "C03", "C06", "C07", "C12", "C13", "C14", "C21", "C22", "C29"}   # C17, C23: the thorough tier ran out of time on this machine and is not registered; C07 thorough: 42 min for c07_constprop (jobs=5, hse groups 7-15 GB each) + 14 min for the MUL arm of c07_constidx_inv
 
 CHECKS = [
     {"id": "C01", "engine": "kani", "level": "other", "design_ref": "DESIGN.md 0A.1, 0A.2 (D10)",
@@ -19,16 +19,16 @@ CHECKS = [
      "text": "Soundness of compile-time evaluation rule by rule: whenever an extracted folding arm (IR const-folding, const_eval_intrinsic; 64-bit and 256-bit) yields Some(v), the VM instruction the real lowering tables select yields v without panicking, for every operand and every $flag. U256's checked operations are proved against nat-level contracts and the 256-bit arms are checked against those contracts, not bodies.",
      "note": "Trusted: Kani/CBMC/z3, Verus, extractor, ALU oracle, BigUint axioms, arena shims. Unverified: aggregates/transmute/control flow in const_eval.rs, CCP. Known finding D3."},
     {"id": "C07", "engine": "kani", "level": "proof", "design_ref": "DESIGN.md 2/C07, 0A.1, 0A.3",
-     "technique": "Kani transfer-function soundness harness per opcode on the verbatim rule table of constant_propagate, callee contracts via -Z stubbing, uninterpreted hard arithmetic",
-     "text": "For constant propagation only: one iteration of the optimisation loop is reassembled from verbatim fragments and, per opcode, proved to leave the VM outcome (registers, $of, $err, panic) unchanged for every register file, every abstract state and every $flag, and to keep only true facts. Register file of 2 virtual + 5 named registers.",
-     "note": "Assumed (not discharged): contracts of KnownValues::remove_reg_and_dependents and ResetKnown::apply; has_side_effect's contract is discharged in the thorough tier only. Other asm optimisations unverified."},
+     "technique": "Kani transfer-function soundness harness per opcode on the verbatim rule table of constant_propagate (callee contracts via -Z stubbing, uninterpreted hard arithmetic) and on the lifted retain_mut closure of const_indexing_aggregates_function against a tracking invariant; contracts on the decision fragments of remove_redundant_ops / remove_sequential_jumps",
+     "text": "Constant propagation: one iteration of the optimisation loop is reassembled from verbatim fragments and, per opcode, proved to leave the VM outcome (registers, $of, $err, panic) unchanged for every register file, every abstract state and every $flag, and to keep only true facts. Register file of 2 virtual + 5 named registers. Constant-indexed aggregates: every modelled op (ADD, ADDI, MOVI, LW, SW, MOVE, organizational ops; MUL in the thorough tier) preserves the invariant that what the tables say about a register is true of the machine, a rewritten LW/SW accesses the same address and a removed MOVE is a no-op (found and fixed D19). Redundant-op / sequential-jump removal: an op classified removable changes no register and no memory; a jump reported dead is a non-call jump to the next line.",
+     "note": "Assumed (not discharged): contracts of KnownValues::remove_reg_and_dependents and ResetKnown::apply; has_side_effect's contract is discharged in the thorough tier only. Unverified: dce / reachability, simplify_cfg, remove_redundant_moves, the next-op flag guard of remove_redundant_ops, LoadDataId and catch-all arms of const_indexing_aggregates_function."},
     {"id": "C12", "engine": "kani", "level": "proof", "design_ref": "DESIGN.md 2/C12, 0A.1",
      "technique": "Kani full-domain harness on the extracted add_to_b256 with the real uint crate",
      "text": "Partial: the slot-key arithmetic (consecutive slots are base, base+1, ...) is proved for all 256-bit keys and 64-bit offsets whose sum fits; the overflow panic is known finding D9. Key strings, value layout and the Sway read side are unverified.",
      "note": "Trusted: Kani/CBMC, extractor, uint crate. Known finding D9 is booked under C17."},
     {"id": "C13", "engine": "kani", "level": "proof", "design_ref": "DESIGN.md 2/C13, 0A.1, 0A.3",
-     "technique": "Kani full-domain harnesses on the extracted layout arithmetic, absolute_idx and set_bytecode_configurables_offset",
-     "text": "Partial: the word-alignment step of the data-section layout (for any number of entries, by induction), the absolute index of a configurable, and the frame of the configurables-offset patch. Collection-level layout statements did not finish in CBMC and are not claimed.",
+     "technique": "Kani full-domain harnesses on the extracted layout arithmetic, absolute_idx, immediate_to_reg and set_bytecode_configurables_offset; bounded inductive step tying serialize_to_bytes' loop body to absolute_idx_to_offset's fold closure with Entry::to_bytes under a contract stub",
+     "text": "Partial: the word-alignment step of the data-section layout (for any number of entries, by induction), the per-entry step (the serialiser advances exactly as the offset function does, entry bytes at the offset, zero gap; bounded sizes), the absolute index of a configurable, how lengths/offsets of configurables reach registers, and the frame of the configurables-offset patch. Collection-level layout statements did not finish in CBMC and are not claimed.",
      "note": "Trusted: Kani/CBMC, extractor. Unverified: to_bytecode_mut, fuel_abi.rs, the Sway/VM side."},
     {"id": "C14", "engine": "kani", "level": "proof", "design_ref": "DESIGN.md 2/C14, 0A.1",
      "technique": "Kani harnesses on the verbatim impl Range<T> (range.rs) against set semantics with a symbolic member value",
